@@ -42,6 +42,9 @@
 #include <linux/futex.h>
 #include <map>
 #include <poll.h>
+#include <setjmp.h>
+#include <signal.h>
+#include <queue>
 #include <set>
 #include <sys/syscall.h>
 #include <sys/wait.h>
@@ -198,6 +201,14 @@ static void hpoint(char code, const void *obj)
 }
 NOTSAN static void set_ktid(int t) { slot[t].ktid = (int)syscall(SYS_gettid); }
 NOTSAN static void event_dead(int t) { live_ev[t] = nullptr; }
+// the thread whose waiter owns event `o` (-1: none)
+NOTSAN static int owner_of_event(const void *o)
+{
+    for (int u = 0; u < nthreads; u++)
+        if (live_ev[u] == o)
+            return u;
+    return -1;
+}
 
 static size_t prim_size(char code)
 {
@@ -460,6 +471,97 @@ static std::string oracle_text()
 }
 
 // ---------------------------------------------------------------------------
+// round 3: use of the library BEFORE main() (static-initialisation order).
+// An object with the earliest user init priority runs the library from its
+// constructor - system lock incl. nesting/save/restore, a wait queue with a
+// REAL second thread parked and woken, safe_queue, event, semaphore - and keeps
+// what it saw; op `p premain` reports it later.  The library's own statics
+// (recursive mutex, thread_local count) must be usable at that time.
+// ---------------------------------------------------------------------------
+static sigjmp_buf premain_jb;
+static void premain_segv(int) { siglongjmp(premain_jb, 1); }
+struct PreMain
+{
+    char text[256];
+    PreMain()
+    {
+        // a crash inside the library at this time (e.g. a library static that is not
+        // constant-initialised) must become a result line, not a dead harness
+        struct sigaction sa, old1, old2;
+        memset(&sa, 0, sizeof sa);
+        sa.sa_handler = premain_segv;
+        sa.sa_flags = SA_NODEFER;
+        sigaction(SIGSEGV, &sa, &old1);
+        sigaction(SIGBUS, &sa, &old2);
+        if (sigsetjmp(premain_jb, 1) == 0)
+            body();
+        else
+            snprintf(text, sizeof text, "premain CRASH (SIGSEGV inside the library before main())");
+        sigaction(SIGSEGV, &old1, nullptr);
+        sigaction(SIGBUS, &old2, nullptr);
+    }
+    void body()
+    {
+        int a, b, c2, d, e;
+        system_lock(); system_lock(); a = syslock_counter();
+        system_unlock(); b = syslock_counter();
+        syslock_save_pair sv = system_lock_save(); c2 = syslock_counter();
+        system_lock_restore(sv); d = syslock_counter();
+        system_unlock(); e = syslock_counter();
+        igris::dlist_base head;
+        unwait_one(&head, 5);
+        unwait_all(&head, 6);
+        void *fut = nullptr;
+        std::thread th([&]() { wait_current_schedee(&head, 0, &fut); });
+        for (;;)
+        {
+            system_lock();
+            size_t n = head.size();
+            system_unlock();
+            if (n == 1) break;
+            timespec ts = {0, 100000};
+            nanosleep(&ts, nullptr);
+        }
+        unwait_one(&head, 77);
+        th.join();
+        igris::safe_queue<long> q;
+        q.push(7); q.push(8);
+        long g = q.pop();
+        long z = (long)q.size();
+        igris::event ev;
+        int s1 = ev.signal(), i1 = ev.isset();
+        ev.wait();
+        int r1 = ev.reset(), i2 = ev.isset();
+        igris::semaphore sm(1);
+        sm.wait(); int v0 = sm.getvalue();
+        sm.post(); int v1 = sm.getvalue();
+        snprintf(text, sizeof text, "premain lock=%d,%d,%d,%d,%d save=%d fut=%ld wq=%d q=%ld,%ld ev=%d,%d,%d,%d sem=%d,%d",
+                 a, b, c2, d, e, (int)sv.count, (long)(intptr_t)fut, (int)head.size(), g, z, s1, i1, r1, i2, v0, v1);
+    }
+};
+static PreMain premain __attribute__((init_priority(101)));
+static const char *PREMAIN_EXPECT = "premain lock=2,1,0,1,0 save=1 fut=77 wq=0 q=7,1 ev=1,1,1,0 sem=0,1";
+
+// constants / widths of the compiled code that the model embeds (op `k consts`)
+struct SqMirror // layout of igris::safe_queue<long> (its members are private)
+{
+    std::queue<long> queue;
+    igris::semaphore sem;
+};
+static_assert(sizeof(SqMirror) == sizeof(igris::safe_queue<long>), "igris::safe_queue layout changed");
+static std::string consts_text()
+{
+    igris::safe_queue<long> q;
+    int sem0 = ((SqMirror *)&q)->sem.getvalue(); // initial value of safe_queue's semaphore (model: init.sem = 1)
+    syslock_save_pair sp = {0, 0};
+    waiter wt = {};
+    char b[200];
+    snprintf(b, sizeof b, "consts sem0=%d counter=%zu savecount=%zu future=%zu signed=%d", sem0, sizeof(decltype(syslock_counter())),
+             sizeof(sp.count), sizeof(wt.future), (int)std::is_signed<decltype(syslock_counter())>::value);
+    return b;
+}
+
+// ---------------------------------------------------------------------------
 // programs
 // ---------------------------------------------------------------------------
 struct Op
@@ -572,7 +674,7 @@ static void thread_main(Case *c, int t)
 
 static bool parse_case(const std::vector<std::string> &w, Case &c, std::vector<long> &init, std::string &sched)
 {
-    if (w.size() != 4 || (w[0] != "c" && w[0] != "e"))
+    if (w.size() != 4 || (w[0] != "c" && w[0] != "e" && w[0] != "u"))
         return false;
     c.ecase = (w[0] == "e");
     std::string cur;
@@ -612,6 +714,20 @@ static bool parse_case(const std::vector<std::string> &w, Case &c, std::vector<l
 // ---------------------------------------------------------------------------
 static void run_case(const std::vector<std::string> &w, hv::out &o)
 {
+    if (w.size() == 2 && w[0] == "p")
+    {
+        o.result = premain.text;
+        if (o.result != PREMAIN_EXPECT)
+            o.fail(std::string("the library used before main() behaved differently: expected `") + PREMAIN_EXPECT + "`");
+        o.tag("premain");
+        return;
+    }
+    if (w.size() == 2 && w[0] == "k")
+    {
+        o.result = consts_text();
+        o.tag("consts");
+        return;
+    }
     Case &c = *new Case(); // leaked on purpose when threads stay blocked
     std::vector<long> init;
     std::string sched;
@@ -658,12 +774,54 @@ static void run_case(const std::vector<std::string> &w, hv::out &o)
                         multipend = true;
                 }
     };
-    auto grant = [&](int t) {
-        if (t >= n || get_st(t) != PARKED)
-        {
-            trace += std::to_string(t) + "- ";
+    // ---- round 3: the order in which ONE unwait_all call signals the waiters
+    // it found queued is not fixed by the property.  `refq` = reference wait
+    // queue kept while the case runs (from the completed enqueue / unlink
+    // points, not from the library's list).  Window = an unwait_all that found
+    // >= 2 waiters, from its first unlink until it arrives at system_unlock:
+    // schedule tokens naming a member are not executed (`t=`), the members'
+    // hand-offs are printed as a sorted set when the window closes.  `literal`
+    // (cases `u`): every token is executed, only order-independent output.
+    bool literal = (w[0] == "u");
+    std::deque<int> refq;
+    int win = -1;
+    std::set<int> mem, tosignal;
+    std::vector<int> dfr;
+    int last_unlinked[MAXT];
+    bool in_all[MAXT];
+    for (int t = 0; t < MAXT; t++) { last_unlinked[t] = -1; in_all[t] = false; }
+    auto cur_op = [&](int t) -> Op {
+        int i = read_ops_done(t);
+        return i < (int)c.prog[t].size() ? c.prog[t][i] : Op{0, 0};
+    };
+    // ---- oracle (round 3): syslock_counter() of a thread arriving at the first point of an
+    // operation = the nesting depth its OWN completed operations left (L +1, U -1, save -> 0,
+    // restore -> the saved depth; wait / unwait / queue operations are balanced): the count is
+    // per thread and exact, whatever the other threads did meanwhile
+    auto check_count = [&](int u) {
+        if (c.ecase || get_st(u) != PARKED)
             return;
+        Slot sl = get_slot(u);
+        int i = read_ops_done(u);
+        if (i >= (int)c.prog[u].size())
+            return;
+        char k = c.prog[u][i].k;
+        char first = (k == 'L' || k == 'W' || k == 'O' || k == 'A') ? 'L' : (k == 'P' || k == 'G' || k == 'Z') ? 'a' : k;
+        if (sl.hook != first)
+            return;
+        long depth = 0, saved = 0;
+        for (int j = 0; j < i; j++)
+        {
+            char q = c.prog[u][j].k;
+            if (q == 'L') depth++;
+            else if (q == 'U') depth--;
+            else if (q == 'S') { saved = depth; depth = 0; }
+            else if (q == 'R') depth = saved;
         }
+        if (sl.cnt != depth)
+            o.fail("syslock_counter() of thread " + std::to_string(u) + " is " + std::to_string(sl.cnt) + " at the start of its operation " + std::to_string(i) + ", its own completed operations leave depth " + std::to_string(depth));
+    };
+    auto grant_core = [&](int t) {
         bool waspend[MAXT];
         unsigned long seq0[MAXT];
         for (int u = 0; u < n; u++)
@@ -673,6 +831,23 @@ static void run_case(const std::vector<std::string> &w, hv::out &o)
             seq0[u] = s.seq;
         }
         char h = get_slot(t).hook;
+        Op op_now = cur_op(t);
+        const void *obj_now = get_slot(t).obj;
+        if (!c.ecase && h == 's')
+        {
+            // ---- oracle: WHO is signalled.  unwait_one: the head of the reference
+            // queue (the longest waiting, or the prioritised one); unwait_all: a
+            // waiter that was queued when the call took the lock, each exactly once.
+            int target = owner_of_event(obj_now);
+            if (op_now.k == 'O' && target != last_unlinked[t])
+                o.fail("unwait_one of thread " + std::to_string(t) + " signals thread " + std::to_string(target) + ", the head of the reference wait queue was thread " + std::to_string(last_unlinked[t]));
+            if (op_now.k == 'A')
+            {
+                if (!tosignal.count(target))
+                    o.fail("unwait_all of thread " + std::to_string(t) + " signals thread " + std::to_string(target) + " which was not queued when the call took the lock, or signals it a second time");
+                tosignal.erase(target);
+            }
+        }
         if (c.ecase && h == 'e' && c.prog[t][read_ops_done(t)].v == 0 && !mirror_flag(c.E))
         {
             // a zero time-out releases the event mutex and takes it again: with
@@ -698,6 +873,22 @@ static void run_case(const std::vector<std::string> &w, hv::out &o)
         {
             set_pending(t, false);
             acts.push_back({t, h});
+            if (!c.ecase && h == 'q')
+            {
+                if (op_now.v) refq.push_front(t); else refq.push_back(t);
+            }
+            if (!c.ecase && h == 'k' && op_now.k == 'O')
+            {
+                last_unlinked[t] = refq.empty() ? -1 : refq.front();
+                if (!refq.empty()) refq.pop_front();
+            }
+            if (!c.ecase && op_now.k == 'A' && in_all[t] && get_slot(t).st == PARKED && get_slot(t).hook == 'U')
+            {
+                // ---- oracle: unwait_all returns only after every waiter it found was signalled
+                in_all[t] = false;
+                if (!tosignal.empty())
+                    o.fail("unwait_all of thread " + std::to_string(t) + " reaches its system_unlock with " + std::to_string(tosignal.size()) + " of the waiters it found queued not signalled (lost wake-up)");
+            }
         }
         // pending threads that got through because of this action
         std::vector<std::pair<unsigned long, int>> woke;
@@ -713,15 +904,70 @@ static void run_case(const std::vector<std::string> &w, hv::out &o)
         }
         (void)seq0;
         for (auto &pr : woke)
-            trace += "+" + std::to_string(pr.second) + " ";
+            if (win >= 0 && mem.count(pr.second))
+                dfr.push_back(pr.second);
+            else
+                trace += "+" + std::to_string(pr.second) + " ";
         for (auto &pr : woke)
             acts.push_back({pr.second, '+'});
+        check_count(t);
+        for (auto &pr : woke)
+            check_count(pr.second);
         check_multi();
+    };
+    auto grant = [&](int t) {
+        if (win >= 0 && mem.count(t))
+        {
+            trace += std::to_string(t) + "= ";
+            return;
+        }
+        if (t >= n || get_st(t) != PARKED)
+        {
+            trace += std::to_string(t) + "- ";
+            return;
+        }
+        if (!c.ecase && get_slot(t).hook == 'k' && cur_op(t).k == 'A' && !in_all[t])
+        {
+            // first unlink of an unwait_all: everybody queued now must be signalled by this call
+            in_all[t] = true;
+            tosignal = std::set<int>(refq.begin(), refq.end());
+            std::deque<int> ms = refq;
+            refq.clear();
+            if (!literal && win < 0 && ms.size() >= 2)
+            {
+                // members standing at their flag test hold their own event mutex:
+                // they go to sleep first, so that the waker never blocks inside the window
+                std::vector<int> srt(ms.begin(), ms.end());
+                std::sort(srt.begin(), srt.end());
+                for (int m : srt)
+                    if (!hang && !multipend && get_st(m) == PARKED && get_slot(m).hook == 'c')
+                        grant_core(m);
+                if (hang || multipend)
+                    return;
+                win = t;
+                mem = std::set<int>(ms.begin(), ms.end());
+            }
+        }
+        grant_core(t);
+        if (win == t && !hang && get_st(t) == PARKED && get_slot(t).hook == 'U')
+        {
+            std::sort(dfr.begin(), dfr.end());
+            for (int m : dfr)
+                trace += "+" + std::to_string(m) + " ";
+            dfr.clear();
+            mem.clear();
+            win = -1;
+        }
     };
 
     // schedule letter a..f: spurious return of the condition-variable wait of thread 0..5
     bool any_spur = false;
     auto spur = [&](int t) {
+        if (win >= 0 && mem.count(t))
+        {
+            trace += std::to_string(t) + "~= ";
+            return;
+        }
         if (t >= n || !asleep_in_cv(t))
         {
             trace += std::to_string(t) + "~- ";
@@ -773,7 +1019,7 @@ static void run_case(const std::vector<std::string> &w, hv::out &o)
             int st = get_st(t);
             if (st != DONE)
                 all_done = false;
-            if (st == PARKED && pick < 0)
+            if (st == PARKED && pick < 0 && !(win >= 0 && mem.count(t)))
                 pick = t;
         }
         if (all_done)
@@ -809,7 +1055,7 @@ static void run_case(const std::vector<std::string> &w, hv::out &o)
                     if (tk == "|") continue;
                     if (tk[0] == '+') { int u = tk[1] - '0'; seq.push_back({u, blockedAt[u]}); continue; }
                     int t = tk[0] - '0';
-                    if (tk[1] == '-' || tk[1] == '~') continue;
+                    if (tk[1] == '-' || tk[1] == '~' || tk[1] == '=') continue;
                     if (tk.size() > 2 && tk[2] == '!') { blockedAt[t] = tk[1]; continue; }
                     seq.push_back({t, tk[1]});
                 }
@@ -913,7 +1159,7 @@ static void run_case(const std::vector<std::string> &w, hv::out &o)
                     if (tk == "|") continue;
                     if (tk[0] == '+') { int u = tk[1] - '0'; pts[u].push_back(blockedAt[u]); pts[u].push_back('#'); continue; }
                     int t = tk[0] - '0';
-                    if (tk[1] == '-' || tk[1] == '~') continue;
+                    if (tk[1] == '-' || tk[1] == '~' || tk[1] == '=') continue;
                     if (tk.size() > 2 && tk[2] == '!') { blockedAt[t] = tk[1]; continue; }
                     pts[t].push_back(tk[1]); pts[t].push_back('#');
                 }
@@ -929,7 +1175,7 @@ static void run_case(const std::vector<std::string> &w, hv::out &o)
                     if (tk == "|") continue;
                     if (tk[0] == '+') { int u = tk[1] - '0'; seq.push_back({u, blockedAt[u]}); continue; }
                     int t = tk[0] - '0';
-                    if (tk[1] == '-' || tk[1] == '~') continue;
+                    if (tk[1] == '-' || tk[1] == '~' || tk[1] == '=') continue;
                     if (tk.size() > 2 && tk[2] == '!') { blockedAt[t] = tk[1]; continue; }
                     seq.push_back({t, tk[1]});
                 }
@@ -1021,7 +1267,7 @@ static void run_case(const std::vector<std::string> &w, hv::out &o)
             o.tag("deadlock");
         }
     }
-    o.result = trace + "| " + status + " | " + obs;
+    o.result = (literal ? std::string("u ") : trace) + "| " + status + " | " + obs;
     std::string om = oracle_text();
     if (!om.empty())
         o.fail(om);
@@ -1073,7 +1319,7 @@ static void run_case(const std::vector<std::string> &w, hv::out &o)
 // ---------------------------------------------------------------------------
 // worker process / supervisor
 // ---------------------------------------------------------------------------
-extern "C" const char *__tsan_default_options() { return "atexit_sleep_ms=0"; }
+extern "C" __attribute__((no_sanitize("thread"))) const char *__tsan_default_options() { return "atexit_sleep_ms=0"; } // not instrumented: it runs while the TSan runtime is still initialising (an -O0 build, bin/cov, crashed here)
 
 static void worker_loop(int in_fd)
 {
@@ -1454,6 +1700,92 @@ static void all_perms_spur(hv::rng &r, const std::string &progs, std::vector<int
             emit_case(progs, "", with_spurs(r, cur, waiter_threads(progs), 1 + (int)r.below(2)));
 }
 
+// ---------------------------------------------------------------------------
+// round 3 generators
+// ---------------------------------------------------------------------------
+static void gen3(hv::rng &r, bool thorough)
+{
+    // --- `u` cases: unwait_all with 2-3 waiters, the schedule is taken literally
+    // also INSIDE the unwait_all call (the members run while the waker is between
+    // two of its steps; a signalled waiter returns and destroys its stack frame -
+    // waiter, list node, event - while the waker goes on to the next waiter).
+    // Only order-independent output is compared; the oracles and TSan judge.
+    printf("p premain\n");
+    printf("k consts\n");
+    // --- the "prioritised one" clause: EVERY combination of priorities and arrival
+    // orders of 2..4 waiters; the waiters enqueue in the given order (3 points each:
+    // lock, enqueue, unlock), then one thread calls unwait_one k times with distinct
+    // futures: who got which future is the service order (judged by the reference deque)
+    for (int k = 2; k <= 4; k++)
+    {
+        std::vector<int> perm;
+        for (int t = 0; t < k; t++) perm.push_back(t);
+        long idx = 0;
+        do
+        {
+            for (int mask = 0; mask < (1 << k); mask++, idx++)
+            {
+                if (k == 4 && !thorough && idx % 6 != 0) continue;
+                std::string progs, sc;
+                for (int t = 0; t < k; t++) progs += std::string(t ? "/" : "") + "W" + ((mask >> t) & 1 ? "1" : "0");
+                progs += "/";
+                for (int i = 0; i < k; i++) progs += std::string(i ? "," : "") + "O" + std::to_string(i + 1);
+                for (int t : perm) sc += std::string(3, '0' + t);
+                emit_case(progs, "", sc);
+            }
+        } while (std::next_permutation(perm.begin(), perm.end()));
+    }
+    // repeated waits of ONE thread with changed priority between the calls
+    for (const char *pg : {"W1,W0/W0,W1/O1,O2,O3,A4", "W0,W1,W0/W1/O1,O2,A3,A4"})
+        for (int k = 0; k < (thorough ? 400 : 30); k++)
+            emit_case(pg, "", rand_sched(r, step_counts(pg), (int)r.below(3)));
+    // nesting depth 9 = the deepest the library admits (assert(count < 10)), a contender at depth 9, 5, 1
+    {
+        std::string nest;
+        for (int i = 0; i < 9; i++) nest += "L,";
+        for (int i = 0; i < 9; i++) nest += std::string("U") + (i < 8 ? "," : "");
+        emit_case(nest + "/L,U", "", "0000000001000010000101");
+        emit_case("L,L,L,L,L,L,L,L,L,S,R,U,U,U,U,U,U,U,U,U/L,U", "", "00000000010101");
+        for (int k = 0; k < (thorough ? 100 : 6); k++)
+            emit_case(nest + "/L,U", "", rand_sched(r, step_counts(nest + "/L,U"), (int)r.below(3)));
+    }
+    g_kind = "u";
+    for (const char *pg : {"W0/W0/A9", "W0/W0/W0/A9", "W1/W0/W1/A9"})
+    {
+        int nw = (int)split(pg, '/').size() - 1;
+        // every waiter asleep; after each step of the waker every waiter gets two grants
+        // (event.wait.unlock, wait.return: it leaves and destroys its frame at once)
+        std::string park, all;
+        for (int t = 0; t < nw; t++) { park += std::string(5, '0' + t); all += std::string(2, '0' + t); }
+        std::string sc = park, wk(1, '0' + nw);
+        for (int k = 0; k < 2 + 4 * nw; k++) sc += wk + all;
+        emit_case(pg, "", sc);
+        // the same with the waiters only enqueued (not yet inside event.wait): the wake races with the park
+        std::string enq;
+        for (int t = 0; t < nw; t++) enq += std::string(3, '0' + t);
+        sc = enq;
+        for (int k = 0; k < 2 + 4 * nw; k++) sc += wk + all;
+        emit_case(pg, "", sc);
+        auto cnt = step_counts(pg);
+        auto wt = waiter_threads(pg);
+        for (int k = 0; k < (thorough ? 600 : 40); k++)
+        {
+            // all waiters enqueued first (3 or 5 steps each, random thread order), then anything
+            std::vector<int> left = cnt;
+            std::string pre;
+            std::vector<int> order;
+            for (int t = 0; t < nw; t++) order.push_back(t);
+            for (int i = nw - 1; i > 0; i--) std::swap(order[i], order[r.below(i + 1)]);
+            for (int t : order) { int d = r.chance(50) ? 3 : 5; pre += std::string(d, '0' + t); left[t] -= d; }
+            std::string rest = rand_sched(r, left, (int)r.below(3));
+            if (k % 2)
+                rest = with_spurs(r, rest, wt, 1 + (int)r.below(3));
+            emit_case(pg, "", pre + rest);
+        }
+    }
+    g_kind = "c";
+}
+
 static void gen(hv::rng &r, const std::string &tier)
 {
     bool thorough = tier == "thorough";
@@ -1620,6 +1952,7 @@ static void gen(hv::rng &r, const std::string &tier)
             emit_case(pg, "", sc);
         }
     }
+    gen3(r, thorough);
 }
 
 int main(int argc, char **argv)
